@@ -9,6 +9,7 @@ import (
 	"os"
 	"os/exec"
 	"runtime"
+	"sort"
 	"strings"
 	"time"
 
@@ -295,10 +296,65 @@ func main() {
 		if !r.Quick() {
 			plans = []plan{{"2x1", -1, 0}, {"2x2", -1, 0}, {"3x1", -1, 0}, {"2x3", -1, 0}, {"4x1", -1, 0}, {"3x2", 4, 0}, {"4x2", 3, 0}, {"3x3", 3, 0}, {"2x2", -1, 1}, {"3x1", -1, 1}, {"2x3", 3, 1}, {"2x2", -1, 2}}
 		}
+		// The free-running supplements come first: they are short and bounded, and a tree whose schedule exploration uses up
+		// the whole budget must still get them.
+		type raceRun struct {
+			g, n  string
+			procs string
+		}
+		raceRuns := []raceRun{{"32", "30000", ""}, {"8", "20000", "1"}, {"600", "300", ""}, {"4", "d6500ms", ""}}
+		if !r.Quick() {
+			raceRuns = []raceRun{{"64", "100000", ""}, {"16", "100000", "1"}, {"4", "500000", "2"}, {"2000", "1000", ""}, {"600", "5000", "4"}, {"8", "d65s", ""}}
+		}
+		for _, rr := range raceRuns {
+			rr := rr
+			r.Phase(fmt.Sprintf("supplement (not deciding): free-running %s goroutines x %s draws (dN = a process living N long) under the Go race detector (real sync, real generator, first calls of a fresh process concurrent), GOMAXPROCS=%q", rr.g, rr.n, rr.procs), "one free run", func() {
+				bin := os.Args[0] + ".race"
+				limit := 90 * time.Second
+				if !r.Quick() {
+					limit = 8 * time.Minute
+				}
+				ctx, cancel := context.WithTimeout(context.Background(), limit)
+				defer cancel()
+				args := []string{"-g", rr.g, "-n", rr.n}
+				if strings.HasPrefix(rr.n, "d") { // a long-lived process instead of a fixed number of draws
+					args = []string{"-g", rr.g, "-d", rr.n[1:]}
+				}
+				cmd := exec.CommandContext(ctx, bin, args...)
+				cmd.Env = os.Environ()
+				if rr.procs != "" {
+					cmd.Env = append(cmd.Env, "GOMAXPROCS="+rr.procs)
+				}
+				out, err := cmd.CombinedOutput()
+				r.Extra["race_supplement_output_"+rr.g+"x"+rr.n+"_procs"+rr.procs] = strings.TrimSpace(lastLines(string(out), 3))
+				if ctx.Err() != nil { // the supplement is not the deciding step: a run that does not finish in time is recorded, not judged
+					r.Extra["race_supplement_timeout_"+rr.g+"x"+rr.n+"_procs"+rr.procs] = limit.String()
+					err = nil
+				}
+				if err != nil {
+					path := mc.Root + "/replays/C19/race_supplement_" + rr.g + "x" + rr.n + "_procs" + rr.procs + ".log"
+					os.MkdirAll(mc.Root+"/replays/C19", 0o755)
+					os.WriteFile(path, out, 0o644)
+					if strings.Contains(string(out), "DATA RACE") || strings.Contains(string(out), "duplicates=") {
+						r.Extra["race_supplement_failed"] = true
+						r.ExternalViolation(path, "free-running race supplement failed:\n"+lastLines(string(out), 25))
+					} else {
+						r.Infra("race supplement could not run: %v: %s", err, lastLines(string(out), 5))
+					}
+				}
+				r.Serial(func(w *mc.W) { w.Point(); w.Outcome("race supplement") })
+			})
+		}
 		sched_stats := []map[string]any{}
+		// Iterative context bounding across the whole plan: every harness at bound 0, then every harness at bound 1, at bound
+		// 2, ..., and only then the unbounded explorations - so that a tree whose executions are long (many scheduling
+		// points) still gets all small-bound explorations of the larger harnesses before the budget is used up.
+		type step struct {
+			pl plan
+			b  int
+		}
+		var steps []step
 		for _, pl := range plans {
-			pl := pl
-			h := harnesses[pl.h]
 			bounds := []int{0, 1, 2}
 			if pl.bound > 2 {
 				for b := 3; b <= pl.bound; b++ {
@@ -311,7 +367,20 @@ func main() {
 				bounds = bounds[:pl.bound+1]
 			}
 			for _, b := range bounds {
-				b := b
+				steps = append(steps, step{pl, b})
+			}
+		}
+		rank := func(b int) int {
+			if b < 0 {
+				return 1 << 20
+			}
+			return b
+		}
+		sort.SliceStable(steps, func(i, j int) bool { return rank(steps[i].b) < rank(steps[j].b) })
+		for _, st := range steps {
+			pl, b := st.pl, st.b
+			h := harnesses[pl.h]
+			{
 				bname := fmt.Sprintf("preemption bound %d", b)
 				if b < 0 {
 					bname = "unbounded (all interleavings)"
@@ -385,49 +454,6 @@ func main() {
 				w.Outcome("real generator")
 			})
 		})
-		type raceRun struct {
-			g, n  string
-			procs string
-		}
-		raceRuns := []raceRun{{"16", "2000", ""}, {"8", "2000", "1"}, {"600", "60", ""}}
-		if !r.Quick() {
-			raceRuns = []raceRun{{"64", "10000", ""}, {"16", "10000", "1"}, {"4", "50000", "2"}, {"2000", "100", ""}, {"600", "500", "4"}}
-		}
-		for _, rr := range raceRuns {
-			rr := rr
-			r.Phase(fmt.Sprintf("supplement (not deciding): free-running %s goroutines x %s draws under the Go race detector (real sync, real generator, first calls of a fresh process concurrent), GOMAXPROCS=%q", rr.g, rr.n, rr.procs), "one free run", func() {
-				bin := os.Args[0] + ".race"
-				limit := 90 * time.Second
-				if !r.Quick() {
-					limit = 8 * time.Minute
-				}
-				ctx, cancel := context.WithTimeout(context.Background(), limit)
-				defer cancel()
-				cmd := exec.CommandContext(ctx, bin, "-g", rr.g, "-n", rr.n)
-				cmd.Env = os.Environ()
-				if rr.procs != "" {
-					cmd.Env = append(cmd.Env, "GOMAXPROCS="+rr.procs)
-				}
-				out, err := cmd.CombinedOutput()
-				r.Extra["race_supplement_output_"+rr.g+"x"+rr.n+"_procs"+rr.procs] = strings.TrimSpace(lastLines(string(out), 3))
-				if ctx.Err() != nil { // the supplement is not the deciding step: a run that does not finish in time is recorded, not judged
-					r.Extra["race_supplement_timeout_"+rr.g+"x"+rr.n+"_procs"+rr.procs] = limit.String()
-					err = nil
-				}
-				if err != nil {
-					path := mc.Root + "/replays/C19/race_supplement_" + rr.g + "x" + rr.n + "_procs" + rr.procs + ".log"
-					os.MkdirAll(mc.Root+"/replays/C19", 0o755)
-					os.WriteFile(path, out, 0o644)
-					if strings.Contains(string(out), "DATA RACE") || strings.Contains(string(out), "duplicates=") {
-						r.Extra["race_supplement_failed"] = true
-						r.ExternalViolation(path, "free-running race supplement failed:\n"+lastLines(string(out), 25))
-					} else {
-						r.Infra("race supplement could not run: %v: %s", err, lastLines(string(out), 5))
-					}
-				}
-				r.Serial(func(w *mc.W) { w.Point(); w.Outcome("race supplement") })
-			})
-		}
 	})
 }
 
